@@ -96,6 +96,13 @@ var offenders = []offender{
 	{"unknown-func", true, true, func() *gen.Node { return gen.NCall("nosuch", i64(1)) }},
 	{"unknown-func-noargs", true, true, func() *gen.Node { return gen.NCall("nosuch2") }},
 	{"unknown-func-nested-arg", true, true, func() *gen.Node { return gen.NCall("pval", gen.NCall("nosuch3", id("a"))) }},
+	// function names are matched exactly: a registered name in another letter case is not registered
+	{"unknown-func-case-upper", true, true, func() *gen.Node { return gen.NCall("PVAL", i64(1)) }},
+	{"unknown-func-case-title", true, true, func() *gen.Node { return gen.NCall("Pval", i64(1)) }},
+	{"unknown-func-case-len", true, false, func() *gen.Node { return gen.NCall("LEN", gen.NList(i64(1))) }},
+	{"unknown-func-case-builtin", true, false, func() *gen.Node { return gen.NCall("Add_Key", id("k"), i64(1)) }},
+	{"unknown-func-prefix", true, true, func() *gen.Node { return gen.NCall("pva", i64(1)) }},
+	{"unknown-func-suffix", true, true, func() *gen.Node { return gen.NCall("pvals", i64(1)) }},
 	{"pval-argc0", true, true, func() *gen.Node { return gen.NCall("pval") }},
 	{"pval-argc2", true, true, func() *gen.Node { return gen.NCall("pval", i64(1), i64(2)) }},
 	{"probe-missing-label", false, true, func() *gen.Node { return gen.NCall("probe") }},
@@ -349,7 +356,8 @@ func genTable(t *rapid.T) []fdef {
 	n := rapid.IntRange(1, 3).Draw(t, "nfuncs")
 	var out []fdef
 	for i := 0; i < n; i++ {
-		f := fdef{name: fmt.Sprintf("fn%d", i)}
+		f := fdef{name: []string{"fn%d", "toUpper%d", "ParseDuration%d", "x_Y%d"}[rapid.IntRange(0, 3).Draw(t, "namecase")]}
+		f.name = fmt.Sprintf(f.name, i)
 		np := rapid.IntRange(0, 3).Draw(t, "nparams")
 		optional := false
 		for j := 0; j < np; j++ {
@@ -465,6 +473,11 @@ func TestRandomFunctionTables(t *testing.T) {
 				}
 			case 0:
 				off, kind = gen.NCall(f.name+"x", i64(1)), "unregistered-name"
+				if alt := strings.ToLower(f.name); alt != f.name && rapid.Bool().Draw(t, "lowercased") {
+					off, kind = gen.NCall(alt, i64(1)), "registered-name-in-another-letter-case"
+				} else if alt := strings.ToUpper(f.name); alt != f.name && rapid.Bool().Draw(t, "uppercased") {
+					off, kind = gen.NCall(alt, i64(1)), "registered-name-in-another-letter-case"
+				}
 			case 1:
 				if f.nreq == 0 {
 					continue
